@@ -67,6 +67,7 @@ def check(P, rep):
             rep.check(ok, 'C08.R3', 'rotate_signers:%s:latest-or-bypass' % e.kind, 'rotation effect must-guarded by bypass OR proof set is the latest: ' + e.describe()[:80],
                       esite(g, e), None, w)
     storage_classes(P, rep, 'C08.R4', CN, {'Epoch': 'instance', 'EpochBySignersHash': 'persistent', 'PreviousSignerRetention': 'instance'})
+    require_overflow_checks(P, rep, 'C08.R1')
     # R4 writers
     nw = 0
     for cn, en in P.all_entries():
